@@ -711,6 +711,8 @@ def translate_function(f, tid=None, seq=False, opts=None):
                 if dst and not isinstance(rty, VoidT):
                     e.reg(dst, rty); out.append('  %s = %s;' % (e.reg(dst), call))
                 else: out.append('  %s;' % call)
+                if callee.kind == 'global' and callee.v in ('verif_make_runnable', 'verif_switch_to', 'verif_spawn'):
+                    out.append('  VERIF_PROG = 1;')   # making another thread runnable is progress (else a bound exhausted mid-release looked like a deadlock)
                 if not (callee.kind == 'global' and (callee.v in RUNTIME_PROVIDED or callee.v.startswith('verif_') or callee.v in M.decls)):
                     if seq: out.append('  if (VERIF_STOP_REQ) { VERIF_STOP_REQ = 0; TH[%d].done = 1; TH[%d].pc = -1; VERIF_PROG = 1; return; }' % (tid, tid))
                     else: out.append('  if (VERIF_STOP_REQ) %s' % ('return;' if isinstance(f.ret, VoidT) else 'return (%s)0;' % f.ret.c() if not isinstance(f.ret, (StructT, LitStructT, ArrT)) else 'return (%s){0};' % f.ret.c()))
@@ -852,6 +854,12 @@ def main():
     P('/* generated by irseq.py from LLVM IR of the real sources; do not edit */')
     P('#include <stdint.h>\n#include <string.h>\n#include <stdlib.h>')
     P('#ifndef VERIF_NATIVE\nlong nondet_long(void); long VERIF_NDV;\n#define VERIF_CHOICE() (VERIF_NDV = nondet_long())\n#define VERIF_TRACE(t, cs)\n#endif')
+    if cfg.get('ptr_memmove'):
+        # cbmc's library memmove copies through a char array; pointer values do not survive that (they come back as "unknown"),
+        # which gave spurious counterexamples on the deque's re-centring memmove of thread pointers.  Pointer-word model:
+        P('#ifndef VERIF_NATIVE\nvoid *memmove(void *d, const void *s, size_t n){ void **dd = (void **)d; void *const *ss = (void *const *)s; size_t k = n / sizeof(void *), i;\n'
+          '  __CPROVER_assert(n % sizeof(void *) == 0, "VERIF model: memmove of whole pointer words");\n'
+          '  if ((const char *)d < (const char *)s) { for (i = 0; i < k; i++) dd[i] = ss[i]; } else { for (i = k; i > 0; i--) dd[i - 1] = ss[i - 1]; }\n  return d; }\n#endif')
     P('\n'.join(decls))
     P('int PEND_V[8], PEND_L[8]; uint64_t PEND_X[8]; static void tso_commit(int t);')
     P('struct th { int pc; int done; int blocked; int spin; int held; }; int CUR_TID; int VERIF_STUCK; int VERIF_PROG; int VERIF_STOP_REQ; struct th TH[%d];' % max(1, N))
